@@ -30,11 +30,14 @@ VARIABLES c,         \* the case: [spill, nfiles, keep, relevant, point, nth, st
           removeFailed \* files whose removal (or the close preceding it) is what failed
 vars == <<c, pc, done, live, recorded, hits, fired, surfaced, bodyOK, inspected, closeErr, removeFailed>>
 
+\* trunc: the multipart body ends in the middle of the content of its last file part (client abort);
+\* the part read so far is stored and its temporary file must be cleaned up like any other
 Cases == [spill : BOOLEAN, nfiles : 0..MaxFiles, keep : {"Off", "On", "RelevantOnly"}, relevant : BOOLEAN,
-          point : Points, nth : 1..2, steps : 1..3]
+          point : Points, nth : 1..2, steps : 1..3, trunc : BOOLEAN]
 
 Init ==
   /\ c \in {x \in Cases : /\ (x.point = "none" => x.nth = 1)
+                          /\ (x.trunc => x.nfiles >= 1 /\ x.point = "none")
                           /\ (x.point \in {"body.createtemp", "body.spillcopy", "body.write", "body.readat", "body.close", "body.remove"} => x.spill /\ x.nth = 1)
                           /\ (x.point \in {"mp.createtemp", "mp.copy", "tx.remove"} => x.nfiles >= x.nth)
                           /\ (x.keep # "RelevantOnly" => ~x.relevant)}
